@@ -1177,6 +1177,13 @@ impl<'a> Run<'a> {
                 return f(self, "C04 operation changed an unrelated order", format!("{:?} -> {:?}", a, b));
             }
         }
+        // an order that has been filled completely is Filled (volumes and modify volumes are >= 1 in these
+        // histories, so an order with nothing left can only have been executed)
+        for b in post.orders.iter() {
+            if b.vol == 0 && b.start_vol >= 1 && matches!(b.status, St::Active | St::Cancelled) {
+                return f(self, "C04 completely filled order is not Filled", format!("{:?}", b));
+            }
+        }
         if created {
             let b = post.orders.last().unwrap();
             if kind != Kind::Place && b.status != St::New {
